@@ -363,6 +363,40 @@ func (r *Runner) Step(ev M) error {
 		}
 		r.W = w
 		res["ok"] = true
+	case "Bulk":
+		// scenario preparation (not judged step by step): n consecutive WRKChain records by the owner, 500 per block;
+		// recorded as ONE line "Adopt" whose post-state the trace validator adopts as the new starting point
+		n, id, owner := int(mI64(ev, "n")), mU64(ev, "id"), mStr(ev, "owner")
+		wc, _ := r.W.App.WrkchainKeeper.GetWrkChain(r.W.Ctx(), id)
+		fee := int64(r.W.App.WrkchainKeeper.GetParams(r.W.Ctx()).FeeRecord)
+		h, accepted := wc.Lastblock, 0
+		for done := 0; done < n; {
+			if p := r.W.BeginBlock(1000); p != "" {
+				return fmt.Errorf("Bulk: BeginBlock panicked: %s", p)
+			}
+			for i := 0; i < 500 && done < n; i++ {
+				h++
+				tx := normalize(M{"a": "DeliverTx", "fee": M{"nund": fee}, "msgs": []interface{}{
+					M{"t": "WRec", "owner": owner, "id": int64(id), "h": int64(h), "bh": "b", "ph": "", "h1": "", "h2": "", "h3": ""}}})
+				rr, err := r.execOn(r.W, tx, true)
+				if err != nil {
+					return err
+				}
+				if rr["ok"] == true {
+					accepted++
+				}
+				done++
+			}
+			if p := r.W.EndBlock(); p != "" {
+				return fmt.Errorf("Bulk: EndBlock panicked: %s", p)
+			}
+			if p := r.W.Commit(); p != "" {
+				return fmt.Errorf("Bulk: Commit panicked: %s", p)
+			}
+		}
+		res = J{"ok": true, "accepted": accepted}
+		a = "Adopt"
+		rec["a"] = "Adopt"
 	case "ListQueries":
 		// read-only: every list query with every filter / limit / continuation mode (C20)
 		res = J{"ok": true, "lists": r.W.ListQueries(mBool(ev, "full"))}
